@@ -30,7 +30,9 @@ class Pool:
     def _spawn(self, seed):
         env = dict(os.environ)
         env["PYTHONHASHSEED"] = str(seed)
-        env["PYTHONPATH"] = ROOT
+        # VERIF_REPO (optional): run against another checkout of the repository instead of /repo
+        alt = os.environ.get("VERIF_REPO")
+        env["PYTHONPATH"] = (alt + ":" if alt else "") + ROOT
         env.setdefault("GENLM_GRAMMAR_VERIF", "1")
         p = subprocess.Popen([PY, "-m", "vf.worker"], stdin=subprocess.PIPE, stdout=subprocess.PIPE,
                              stderr=subprocess.DEVNULL, env=env, cwd=ROOT, text=True, bufsize=1)
